@@ -5,6 +5,8 @@ Local Open Scope N_scope.
 Record case := mkCase {
   c_prf : pref; c_lifetime : Z;
   c_deprecated : bool; c_epoch : Z; c_now : Z;
+  (* c_now = the FIRST reading of the injected clock during this Apply; the driver lets the clock advance on
+     later readings, all options must nevertheless describe this one instant *)
   c_routes : option (list sysroute);   (* None: the route dump failed / plugin not prepared *)
   c_obs : result (list opt)            (* Ok: the options Apply appended; Err: Apply returned an error *)
 }.
